@@ -172,6 +172,25 @@ def handle (st : St) (idx : Nat) (line : String) : St × String :=
                                     (if lost then ["C15:message-on-healthy-connection-lost-after-faults-elsewhere", "C05:message-of-a-healthy-stream-not-delivered"] else []) ++
                                     (if ¬ foreign ∧ ¬ lost ∧ implOut ≠ model then ["C15:faulty-connection-not-closed"] else []),
                            tags := [s!"xtalk fk={(kvNat rest "fk").getD 0} big={(kvNat rest "big").getD 0}"] })
+    | "smserver" :: "many" :: rest =>
+      -- the k-th connection on a state machine is served like the first: the gate looks at the
+      -- connection's own context (C10_gate / C10_after) and no handler waits for an application
+      -- that does not read the optional channels (Gen.channelSends)
+      let n := (kvNat rest "n").getD 0
+      let model := s!"ok={n}/{n}"
+      let implOut := " ".intercalate implToks
+      (st, emit idx impl { model := model,
+                           fails := if implOut = model then [] else
+                             ["C10:later-connection-of-the-state-machine-not-served", "C11:later-connection-of-the-state-machine-not-served"],
+                           tags := [s!"many n={n}"] })
+    | "smclient" :: "redial" :: rest =>
+      let n := (kvNat rest "n").getD 0
+      let model := s!"ok={n}/{n}"
+      let implOut := " ".intercalate implToks
+      (st, emit idx impl { model := model,
+                           fails := if implOut = model then [] else
+                             ["C12:successful-handshake-reported-as-failure", "C10:later-connection-of-the-client-not-usable"],
+                           tags := [s!"redial n={n}"] })
     | "smclient" :: "dialtcp" :: rest =>
       -- after a successful handshake the connection is open and carries the application's
       -- requests, whenever they are written (C12_stable: nothing closes it; the dial timeout
